@@ -348,6 +348,48 @@ Theorem C06_cast_roundtrip : forall z, (Z.abs z < 10 ^ 15)%Z ->
 Proof. exact cast_int_text_roundtrip. Qed.
 Print Assumptions C06_cast_roundtrip.
 
+(* hex2dec(dec2hex(z)) = z *)
+Theorem C06_hex_roundtrip : forall z, (Z.abs z < 16 ^ 15)%Z ->
+  parse_hex (hex_of_Z z) = OVal z /\
+  fx_call nm_dec2hex [YS (VNum (inject_Z z))] = ystr (hex_of_Z z) /\
+  fx_call nm_hex2dec [YS (VStr (hex_of_Z z))] = yint z.
+Proof. exact hex_text_roundtrip. Qed.
+Print Assumptions C06_hex_roundtrip.
+
+(* url_encode / url_decode and encode / decode with the formats 'url' and 'hex' are inverse on every
+   byte string; the hexadecimal text has two characters per byte *)
+Theorem C06_url_codec : forall s, Forall is_byte s -> url_unescape (url_escape s) = Some s.
+Proof. exact url_codec_roundtrip. Qed.
+Print Assumptions C06_url_codec.
+Theorem C06_hex_codec : forall s, Forall is_byte s ->
+  hex_decode (hex_encode s) = Some s /\ length (hex_encode s) = (2 * length s)%nat.
+Proof. exact hex_codec_roundtrip. Qed.
+Print Assumptions C06_hex_codec.
+Theorem C06_codec_calls : forall s, Forall is_byte s ->
+  fx_call nm_url_encode [YS (VStr s)] = ystr (url_escape s) /\
+  fx_call nm_url_decode [YS (VStr (url_escape s))] = ystr s /\
+  fx_call nm_encode [YS (VStr s); YS (VStr fmt_hex)] = ystr (hex_encode s) /\
+  fx_call nm_decode [YS (VStr (hex_encode s)); YS (VStr fmt_hex)] = ystr s /\
+  fx_call nm_encode [YS (VStr s); YS (VStr fmt_url)] = ystr (url_escape s) /\
+  fx_call nm_decode [YS (VStr (url_escape s)); YS (VStr fmt_url)] = ystr s.
+Proof. exact codec_calls_roundtrip. Qed.
+Print Assumptions C06_codec_calls.
+
+(* ---- the new model extends the old one ---- *)
+(* on scalar arguments a function of Model/ExprEval.v has the value it has there: what is proved about
+   fn_call (C06_pad_call, and through sem the agreement theorems above) holds of fx_call *)
+Theorem C06_call_extends : forall n a vs,
+  fx_arity n = Some a -> arity_ok a (length vs) = true ->
+  (forall v, fn_call n vs = FOk v -> fx_call n (map YS vs) = YOk (YS v)) /\
+  (fn_call n vs = FErr -> fx_call n (map YS vs) = YErr).
+Proof. exact fx_call_extends_fn_call. Qed.
+Print Assumptions C06_call_extends.
+Theorem C06_pad_call_x : forall (left : bool) (s : bytes) (n : nat) (pad : bytes),
+  fx_call (if left then nm_lpad else nm_rpad) [YS (VStr s); YS (VNum (inject_Z (Z.of_nat n))); YS (VStr pad)]
+  = ystr (pad_value left s n pad).
+Proof. exact fx_pad_call. Qed.
+Print Assumptions C06_pad_call_x.
+
 (* ---- where the code violates the statement (findings; witnesses replayed on the real engine) ---- *)
 Definition col_a : bytes := [97]%N.
 Definition case_a_gt_2 : xetop :=
@@ -421,5 +463,11 @@ Example C06_funcs_example :
   fx_call nm_hex2dec [YS (VStr [45;49;102]%N)] = yint (-31) /\
   fx_call nm_chr [YS (VNum 128)] = YErr /\
   fx_call nm_power [YS (VNum 2); YS (VNum (-1))] = ynum (1 # 2) /\
-  fx_call nm_coalesce [YS VNull; YA []; YS x] = YOk (YA []).
-Proof. vm_compute. repeat split; try reflexivity; try discriminate. Qed.
+  fx_call nm_coalesce [YS VNull; YA []; YS x] = YOk (YA []) /\
+  Forall is_byte [97; 32; 38; 233]%N /\ url_escape [97; 32; 38; 233]%N = [97; 43; 37; 50; 54; 37; 69; 57]%N /\
+  hex_encode [97; 255]%N = [54; 49; 102; 102]%N /\ (Z.abs (-31) < 16 ^ 15)%Z /\ hex_of_Z (-31) = [45; 49; 102]%N /\
+  fx_call nm_decode [YS (VStr [54]%N); YS (VStr fmt_hex)] = YErr.
+Proof.
+  vm_compute. repeat split; try reflexivity; try discriminate.
+  repeat constructor.
+Qed.
